@@ -880,6 +880,12 @@ func gen(seed uint64, tier string) {
 		{"+proj=tmerc +lat_0=49 +lon_0=-2 +k=0.9996012717 +x_0=400000 +y_0=-100000 +datum=OSGB36 +units=m", [][2]float64{{-1.5, 52}, {1.5, 51}, {-5.5, 58}}},
 		{"+proj=tmerc +lat_0=0 +lon_0=9 +k=1 +x_0=3500000 +y_0=0 +ellps=bessel +datum=potsdam +pm=paris", [][2]float64{{6.7, 50.1}, {10, 48}}},
 		{"+proj=longlat +ellps=bessel +towgs84=589,76,480", [][2]float64{{14.4, 50.1}, {-120, -33}}},
+		// round h: 7 values, non-zero rotations, scale correction of EXACTLY 0 ppm (scale factor 1), and the other exact-zero patterns
+		{"+proj=tmerc +lat_0=0 +lon_0=15 +k=0.9996 +x_0=500000 +y_0=0 +ellps=bessel +towgs84=577.3,90.1,463.9,5.137,1.474,5.297,0 +units=m", [][2]float64{{14.4, 50.1}, {16.9, 48.2}, {13.1, -33.5}}},
+		{"+proj=longlat +ellps=bessel +towgs84=577.3,90.1,463.9,5.137,1.474,5.297,0", [][2]float64{{14.4, 50.1}, {-120, -33}, {179.5, 80}}},
+		{"+proj=lcc +lat_1=49 +lat_2=44 +lat_0=46.5 +lon_0=3 +x_0=700000 +y_0=6600000 +ellps=clrk80 +towgs84=-168,-60,320,0,0,0.554,-0.0", [][2]float64{{2.3, 48.8}, {-4, 42}}},
+		{"+proj=utm +zone=33 +ellps=intl +towgs84=0,0,0,0,0,0,4.5", [][2]float64{{15, 60}, {12, 0}}},
+		{"+proj=merc +lon_0=0 +k=1 +x_0=0 +y_0=0 +ellps=krass +towgs84=0.0,-0,0,0.35,0.08,0.12,-0", [][2]float64{{-71, 41}, {30, -60}}},
 	}
 	// a geographic CRS and its projected CRS on the same national datum (WGS84 two-hop route on
 	// ONE reused transformer pair: seeded change C08-a3)
@@ -890,6 +896,8 @@ func gen(seed uint64, tier string) {
 		{"+proj=longlat +datum=potsdam", "+proj=tmerc +lat_0=0 +lon_0=9 +k=1 +x_0=3500000 +y_0=0 +datum=potsdam +units=m", [][2]float64{{9.2, 48.8}, {7.1, 50.7}, {11.6, 48.1}, {8.7, 53.1}}},
 		{"+proj=longlat +datum=OSGB36", "+proj=tmerc +lat_0=49 +lon_0=-2 +k=0.9996012717 +x_0=400000 +y_0=-100000 +datum=OSGB36 +units=m", [][2]float64{{-0.1, 51.5}, {-3.2, 55.9}, {-4.3, 50.4}}},
 		{"+proj=longlat +ellps=bessel +towgs84=589,76,480", "+proj=krovak +ellps=bessel +towgs84=589,76,480", [][2]float64{{14.4, 50.1}, {17, 48.5}, {13, 49.7}}},
+		{"+proj=longlat +ellps=bessel +towgs84=577.3,90.1,463.9,5.137,1.474,5.297,0", "+proj=tmerc +lat_0=0 +lon_0=15 +k=0.9996 +x_0=500000 +y_0=0 +ellps=bessel +towgs84=577.3,90.1,463.9,5.137,1.474,5.297,0.0", [][2]float64{{14.4, 50.1}, {16.9, 48.2}}},
+		{"+proj=longlat +ellps=bessel +towgs84=577.3,90.1,463.9,5.137,1.474,5.297,-0", "+proj=eqdc +lat_0=40 +lon_0=15 +lat_1=35 +lat_2=48 +x_0=1000 +y_0=250000 +ellps=intl +towgs84=-87,-98,-121", [][2]float64{{14.4, 50.1}, {20, 38}}},
 	}
 	for _, f := range same {
 		a := crs{def: f.a, tags: []string{"gS"}}
@@ -983,6 +991,7 @@ func gen(seed uint64, tier string) {
 	genTwins(out, vproto.NewRng(seed^0x7477), tier)
 	genInterleaved(out, vproto.NewRng(seed^0x696c), tier)
 	genCloseParallels(out, vproto.NewRng(seed^0x6370), tier)
+	genZeroDatum(out, vproto.NewRng(seed^0x647a), tier)    // round h: exact-zero patterns of a 7-value +towgs84
 	genConcurrentSR(out, vproto.NewRng(seed^0x6373), tier) // phase 4: cc lines for the constructors that store into the shared *SR per call
 	names := []string{"longlat", "merc", "lcc", "aea", "eqdc", "tmerc", "utm", "krovak"}
 	for _, name := range names {
